@@ -1,5 +1,5 @@
 """C42 IP-address ACLs match exactly the configured address sets — E1, every ordered list over a value pool."""
-from vverif import seq
+from vverif import seq, seqla
 from vverif.core import Result, HarnessError
 
 LEVEL = 'exploration'
@@ -17,7 +17,7 @@ ASSUME = ['Ip::EnableIpv6 is switched on by the harness (Squid probes it at star
 
 
 def _build(ctx):
-    return seq.build(ctx, 'tests/testCacheManager', ['C42_ip.cc'])
+    return seqla.build(ctx, 'tests/testCacheManager', ['C42_ip.cc'])
 
 
 def run(ctx):
